@@ -55,18 +55,23 @@ fn weights_new_len3() {
     kani::cover!(Weights::new(&w).is_ok());
 }
 
-#[kani::proof]
-#[kani::unwind(7)]
-fn weights_average() {
-    let n: usize = kani::any();
-    kani::assume(n >= 1 && n <= 4);
+/// concrete lengths 1..4 (a symbolic length makes the Vec symbolic-length: minutes under CBMC)
+fn average_is_uniform(n: usize) {
     let a = Weights::average(n);
     assert!(a.weights.len() == n);
     let i: usize = kani::any();
     kani::assume(i < n);
     assert!(a.weights[i] == 1.0 / n as f64);
     assert!(a.check_length(n).is_ok());
-    kani::cover!(n == 4);
+}
+#[kani::proof]
+#[kani::unwind(7)]
+fn weights_average() {
+    average_is_uniform(1);
+    average_is_uniform(2);
+    average_is_uniform(3);
+    average_is_uniform(4);
+    kani::cover!(true);
 }
 
 #[kani::proof]
